@@ -56,6 +56,7 @@ def run : List String → String
   | ["joinseq", script] => Driver.JoinRefs.run script
   | ["joinnested"] => "ok"       -- a call made on a promise that is pending join behind another pending join is delivered once
   | ["recvpending", _] => "ok"   -- an incoming pipelined call during pending resolution is returned once, its arguments released once
+  | ["fulfillinflight"] => "ok"  -- resolution waits for the calls still inside the caller (Model.Promise: `ongoing = 0` is `resolve`'s guard)
   | ["joininflight"] => "ok"     -- a call made while Join waits for an in-flight call is delivered once, to the parent's caller
   | ["joinrel", _, _] => "ok"    -- clients of a joined chain live until every promise released; the result capability is shut down once
   | ["joinrel", _] => "ok"
